@@ -28,7 +28,8 @@ CONSTANTS K,                \* at most K fields altered together
           OutFile,
           TxByIdChecked,    \* VerifiedTxByID: TRUE = the returned Tx is tied to the proven header
           EntryIdentChecked,\* verifiedGet: TRUE = Entry.Key / Entry.Tx (ReferencedBy.Key / Tx) are compared with what was proven
-          SetHdrChecked     \* VerifiedSet: TRUE = the returned header's EH is compared with the one recomputed from the entries
+          SetHdrChecked,    \* VerifiedSet: TRUE = the returned header's EH is compared with the one recomputed from the entries
+          StreamIdentChecked \* StreamVerifiedGet: TRUE = requested key and proven tx are compared with the returned entry / reference
 
 HdrFields == <<"id", "prev", "ts", "ver", "nent", "eh", "bl", "blroot">>
 HAlh(h) == <<"A", h.id, h.prev, <<"I", h.ts, h.ver, h.nent, h.eh, h.bl, h.blroot>>>>
@@ -42,36 +43,44 @@ InclRoot(p, d) ==                                            \* htree.VerifyIncl
 
 -----------------------------------------------------------------------------
 (* the honest world: trusted tx T, proven tx P *)
-Ops  == {"get0", "getAt", "txbyid", "getRef", "set"}
+Ops  == {"get0", "getAt", "txbyid", "getRef", "set", "sget0", "sgetRef"}   \* s...: the streaming variants (pkg/client/streams.go)
+RefOps == {"getRef", "sgetRef"}
 Rels == {"newer", "same", "older"}                           \* proven tx is newer than / the same as / older than the trusted one
 RelsOf(op) == IF op = "set" THEN {"newer"} ELSE Rels          \* a write is always newer than the trusted state
-POf(op) == CASE op = "getRef" -> 6 [] op = "set" -> 9 [] OTHER -> 3
+POf(op) == CASE op \in RefOps -> 6 [] op = "set" -> 9 [] OTHER -> 3
+SwapP(op) == IF op \in RefOps THEN 7 ELSE POf(op)          \* the tx proven by the honest answer to ANOTHER request (key k2 / reference r2)
 TOf(op, rel) == IF op = "set" THEN 2 ELSE CASE rel = "newer" -> POf(op) - 1 [] rel = "same" -> POf(op) [] rel = "older" -> POf(op) + 1
 
 \* the entries of the proven transaction
 Entries(op) ==
-  CASE op = "getRef" -> <<[key |-> "r1", md |-> "md0", hv |-> HV(RefVal("k1", 0))]>>
+  CASE op \in RefOps -> <<[key |-> "r1", md |-> "md0", hv |-> HV(RefVal("k1", 0))]>>
     [] op = "set"    -> <<[key |-> "ks", md |-> "md0", hv |-> HV(<<"v", "new">>)]>>
     [] OTHER         -> <<[key |-> "k1", md |-> "md0", hv |-> HV(<<"v", 3>>)], [key |-> "k2", md |-> "md0", hv |-> HV(<<"w", 3>>)]>>
 Digs(ver, es) == [q \in 1..Len(es) |-> Dig(ver, es[q].key, es[q].md, es[q].hv)]
+OtherRefEntries == <<[key |-> "r2", md |-> "md0", hv |-> HV(RefVal("k2", 0))]>>     \* tx 7: the reference r2 -> k2
 Hon(op, id) == [id |-> id, prev |-> <<"alh", id - 1>>, ts |-> <<"ts", id>>, ver |-> 1,
                 nent |-> IF id = POf(op) THEN Len(Entries(op)) ELSE 1,
-                eh |-> IF id = POf(op) THEN EHof(Digs(1, Entries(op))) ELSE <<"EHo", id, id>>,
+                eh |-> IF id = POf(op) THEN EHof(Digs(1, Entries(op)))
+                       ELSE IF op \in RefOps /\ id = 7 THEN EHof(Digs(1, OtherRefEntries)) ELSE <<"EHo", id, id>>,
                 bl |-> id - 1, blroot |-> <<"blroot", id>>]
 
-HonResp(op, rel) ==
-  LET T == TOf(op, rel)  P == POf(op)
+HonResp(op, rel, swapped) ==
+  LET T == TOf(op, rel)  P == IF swapped THEN SwapP(op) ELSE POf(op)
       lo == IF T <= P THEN T ELSE P   hi == IF T <= P THEN P ELSE T
-      es == Entries(op) IN
-  [\* schema.Entry (for a reference: the resolved entry k1@3 and ReferencedBy)
-   ekey |-> "k1", eval |-> <<"v", 3>>, emd |-> "md0", etx |-> IF op = "getRef" THEN 3 ELSE P,
-   isRef |-> op = "getRef", rkey |-> "r1", rtx |-> P, rmd |-> "md0", rat |-> 0,
+      ref == op \in RefOps
+      es == IF swapped /\ ref THEN OtherRefEntries ELSE Entries(op)
+      me == IF swapped /\ ~ref THEN 2 ELSE 1                \* position of the answered key in its transaction
+      ot == 3 - me IN
+  [\* schema.Entry (for a reference: the resolved entry and ReferencedBy)
+   ekey |-> IF swapped THEN "k2" ELSE "k1", eval |-> IF swapped THEN <<"w", 3>> ELSE <<"v", 3>>, emd |-> "md0",
+   etx |-> IF ref THEN 3 ELSE P,
+   isRef |-> ref, rkey |-> IF swapped THEN "r2" ELSE "r1", rtx |-> P, rmd |-> "md0", rat |-> 0,
    \* schema.VerifiableTx
    txhdr |-> Hon(op, P), te |-> es,
    dpS |-> Hon(op, lo), dpT |-> Hon(op, hi), body |-> <<"B", HAlh(Hon(op, lo)), HAlh(Hon(op, hi))>>,
    \* schema.InclusionProof
    incl |-> IF Len(es) = 1 THEN [leaf |-> 1, width |-> 1, sib |-> <<"none">>]
-            ELSE [leaf |-> 1, width |-> 2, sib |-> Dig(1, es[2].key, es[2].md, es[2].hv)]]
+            ELSE [leaf |-> me, width |-> 2, sib |-> Dig(1, es[ot].key, es[ot].md, es[ot].hv)]]
 
 -----------------------------------------------------------------------------
 (* the adversary *)
@@ -84,14 +93,14 @@ Muts == EntryMuts \cup RefMuts \cup InclMuts \cup TeMuts
         \cup HdrMuts("txhdr") \cup {"txhdr.ehC"}
         \cup HdrMuts("dpP") \cup {"dpP.ehC"}            \* the dual-proof header on the proven side
         \cup HdrMuts("dpO")                                \* the dual-proof header on the trusted side
-        \cup {"body"}
+        \cup {"body", "swap"}                           \* swap: the honest answer to another request (key k2 / reference r2)
 Conflicts == {{"txhdr.eh", "txhdr.ehC"}, {"dpP.eh", "dpP.ehC"}}
 \* fields the operation neither reads nor returns are left out (they cannot matter)
 Irrelevant(op) ==
-  CASE op \in {"get0", "getAt"} -> TeMuts \cup RefMuts
-    [] op = "getRef" -> TeMuts \cup {"incl.sib"}
-    [] op = "txbyid" -> EntryMuts \cup RefMuts \cup InclMuts
-    [] op = "set"    -> EntryMuts \cup RefMuts \cup InclMuts \cup {"te.drop"}
+  CASE op \in {"get0", "getAt", "sget0"} -> TeMuts \cup RefMuts
+    [] op \in RefOps -> TeMuts \cup {"incl.sib"}
+    [] op = "txbyid" -> EntryMuts \cup RefMuts \cup InclMuts \cup {"swap"}
+    [] op = "set"    -> EntryMuts \cup RefMuts \cup InclMuts \cup {"te.drop", "swap"}
 MutSets(op) == {S \in UNION {kSubset(k, Muts \ Irrelevant(op)) : k \in 0..K} : \A c \in Conflicts : ~(c \subseteq S)}
 
 Bogus(f, old) == IF f = "id" THEN old + 7 ELSE IF f = "ver" THEN 1 - old ELSE IF f = "nent" THEN old + 1 ELSE IF f = "bl" THEN old + 1 ELSE <<"bogus", f, f>>
@@ -103,12 +112,16 @@ GetLeaf(ver, reqKey, r) ==
   IF r.isRef THEN Dig(ver, reqKey, r.rmd, HV(RefVal(r.ekey, r.rat)))
   ELSE Dig(ver, reqKey, r.emd, HV(r.eval))
 
-ReqKey(op) == IF op = "getRef" THEN "r1" ELSE "k1"
+ReqKey(op) == IF op \in RefOps THEN "r1" ELSE "k1"
+\* the streaming client encodes a reference under the key found in the response (ReferencedBy.Key)
+LeafKey(op, r) == IF op = "sgetRef" THEN r.rkey ELSE ReqKey(op)
 
 Altered(op, rel, S) ==
-  LET r == HonResp(op, rel)
-      T == TOf(op, rel)  P == POf(op)
+  LET swapped == "swap" \in S
+      r == HonResp(op, rel, swapped)
+      T == TOf(op, rel)  P == IF swapped THEN SwapP(op) ELSE POf(op)
       provenIsTgt == T <= P
+      same == T = P
       e1 == [r EXCEPT !.ekey = IF "e.key" \in S THEN "kX" ELSE @,
                       !.eval = IF "e.val" \in S THEN <<"forged">> ELSE @,
                       !.emd  = IF "e.md" \in S THEN "mdX" ELSE @,
@@ -127,14 +140,14 @@ Altered(op, rel, S) ==
       txh0 == AlterHdr(r.txhdr, "txhdr", S)
       \* the entries hash a forger would recompute: the one the client's own computation yields for the forged content
       ehC == IF op \in {"txbyid", "set"} THEN EHof(Digs(txh0.ver, te1))
-             ELSE InclRoot(e1.incl, GetLeaf(txh0.ver, ReqKey(op), e1))
+             ELSE InclRoot(e1.incl, GetLeaf(txh0.ver, LeafKey(op, e1), e1))
       txh == IF "txhdr.ehC" \in S THEN [txh0 EXCEPT !.eh = ehC] ELSE txh0
       pr0 == AlterHdr(IF provenIsTgt THEN r.dpT ELSE r.dpS, "dpP", S)
       pr  == IF "dpP.ehC" \in S THEN [pr0 EXCEPT !.eh = ehC] ELSE pr0
       ot  == AlterHdr(IF provenIsTgt THEN r.dpS ELSE r.dpT, "dpO", S)
   IN [e1 EXCEPT !.txhdr = txh, !.te = te1,
-                !.dpS = IF rel = "same" THEN pr ELSE IF provenIsTgt THEN ot ELSE pr,
-                !.dpT = IF rel = "same" THEN pr ELSE IF provenIsTgt THEN pr ELSE ot]
+                !.dpS = IF same THEN pr ELSE IF provenIsTgt THEN ot ELSE pr,
+                !.dpT = IF same THEN pr ELSE IF provenIsTgt THEN pr ELSE ot]
 
 -----------------------------------------------------------------------------
 (* store.VerifyDualProof, with the proof body as a black box (see header) *)
@@ -155,6 +168,23 @@ ClientGet(reqKey, atTx, T, trustedAlh, r) ==
       srcAlh == IF tgtBranch THEN trustedAlh ELSE HAlh(r.dpS)
       tgtAlh == IF tgtBranch THEN HAlh(r.dpT) ELSE trustedAlh
   IN [ok |-> /\ (EntryIdentChecked => IF r.isRef THEN r.rkey = reqKey /\ r.rtx = vTx ELSE r.ekey = reqKey /\ r.etx = vTx)
+             /\ InclRoot(r.incl, e) = eh
+             /\ VerifyDualAbs(r, srcID, tgtID, srcAlh, tgtAlh),
+      ret |-> IF r.isRef THEN <<r.ekey, r.eval, r.emd, r.etx, r.rkey, r.rtx, r.rmd, r.rat>> ELSE <<r.ekey, r.eval, r.emd, r.etx>>,
+      state |-> <<tgtID, tgtAlh>>]
+
+(* pkg/client/streams.go _streamVerifiedGet: AtTx is not looked at, a reference is encoded under ReferencedBy.Key *)
+ClientStreamGet(reqKey, T, trustedAlh, r) ==
+  LET ver == r.txhdr.ver
+      vTx == IF r.isRef THEN r.rtx ELSE r.etx
+      e   == IF r.isRef THEN Dig(ver, r.rkey, r.rmd, HV(RefVal(r.ekey, r.rat))) ELSE Dig(ver, reqKey, r.emd, HV(r.eval))
+      tgtBranch == T <= vTx
+      eh  == IF tgtBranch THEN r.dpT.eh ELSE r.dpS.eh
+      srcID == IF tgtBranch THEN T ELSE vTx
+      tgtID == IF tgtBranch THEN vTx ELSE T
+      srcAlh == IF tgtBranch THEN trustedAlh ELSE HAlh(r.dpS)
+      tgtAlh == IF tgtBranch THEN HAlh(r.dpT) ELSE trustedAlh
+  IN [ok |-> /\ (StreamIdentChecked => IF r.isRef THEN r.rkey = reqKey ELSE r.ekey = reqKey)
              /\ InclRoot(r.incl, e) = eh
              /\ VerifyDualAbs(r, srcID, tgtID, srcAlh, tgtAlh),
       ret |-> IF r.isRef THEN <<r.ekey, r.eval, r.emd, r.etx, r.rkey, r.rtx, r.rmd, r.rat>> ELSE <<r.ekey, r.eval, r.emd, r.etx>>,
@@ -196,6 +226,8 @@ Client(op, rel, r) ==
   CASE op = "get0" -> ClientGet("k1", 0, T, trusted, r)
     [] op = "getAt" -> ClientGet("k1", P, T, trusted, r)
     [] op = "getRef" -> ClientGet("r1", 0, T, trusted, r)
+    [] op = "sget0" -> ClientStreamGet("k1", T, trusted, r)
+    [] op = "sgetRef" -> ClientStreamGet("r1", T, trusted, r)
     [] op = "txbyid" -> ClientTxByID(P, T, trusted, r)
     [] op = "set" -> ClientSet(T, trusted, r)
 
@@ -204,7 +236,7 @@ Truth(op, rel) ==
   LET T == TOf(op, rel)  P == POf(op)  hi == IF T <= P THEN P ELSE T IN
   [ret |-> CASE op = "txbyid" -> <<Hon(op, P), Entries(op)>>
              [] op = "set" -> <<Hon(op, P)>>
-             [] op = "getRef" -> <<"k1", <<"v", 3>>, "md0", 3, "r1", P, "md0", 0>>
+             [] op \in RefOps -> <<"k1", <<"v", 3>>, "md0", 3, "r1", P, "md0", 0>>
              [] OTHER -> <<"k1", <<"v", 3>>, "md0", P>>,
    state |-> <<hi, HAlh(Hon(op, hi))>>]
 
